@@ -210,8 +210,11 @@ fn classify_invalid(payload: &[u8], rep: &mut Report) -> &'static str {
             "classifier-disagrees"
         }
         huffman::Validity::OverlongPadding(_) => "padding-longer-than-7-bits",
-        huffman::Validity::Eos { at_end: true } => "EOS-symbol-at-end",
-        huffman::Validity::Eos { at_end: false } => "EOS-symbol-inside",
+        // the EOS symbol closing the string (fewer than 8 one-bits behind it) and the EOS symbol followed by
+        // a byte or more of ones are different inputs: one signature each
+        huffman::Validity::Eos { at_end: true, trailing_bits } if trailing_bits < 8 => "EOS-symbol-at-end",
+        huffman::Validity::Eos { at_end: true, .. } => "EOS-symbol-then-a-byte-or-more-of-ones",
+        huffman::Validity::Eos { at_end: false, .. } => "EOS-symbol-inside",
         huffman::Validity::BadPadding => "padding-not-EOS-prefix",
     }
 }
